@@ -946,6 +946,35 @@ def gen_c13_file(rng, tier):
             # notes may legitimately round to different ticks, the notes then overlap by one tick and are fused - the
             # *sounding set* is still the union, but a note-by-note comparison would raise a false alarm (it did, once)
             last_end[(ch, p)] = on + dur + min_len
+    # unison overlaps: two tracks of one group play the SAME (channel, pitch) at overlapping times (divisi parts doubling a
+    # note, also both starting on tick 0). Merging fuses them into one note from the earliest start to the latest end; what
+    # must hold is the *sounding set*. File ticks are multiples of the reduced denominator, so their positions are exact
+    # integers and the expected set has no rounding ambiguity. A pitch of its own keeps the note-by-note oracle intact.
+    unison = []
+    multi = [gi for gi, g in enumerate(groups) if len(g) >= 2]
+    if multi and rng.random() < 0.35:
+        from math import gcd
+        qd = tpb // gcd(PPQN, tpb)
+        unit = qd * max(1, -(-3 * gcd(PPQN, tpb) // PPQN))      # >= 3 library ticks
+        gi = rng.choice(multi)
+        used = {e["pitch"] for t in groups[gi] for e in tracks[t] if e["k"] in ("on", "off")}
+        free = [p for p in range(21, 109) if p not in used]
+        if free:
+            up = rng.choice(free)
+            uch = rng.randrange(16)
+            t0 = rng.choice([0, 0, unit * rng.randrange(0, 8)])
+            for _ in range(rng.choice([1, 1, 2, 3])):
+                ta, tb_ = rng.sample(groups[gi], 2)
+                la, lb = unit * rng.randrange(1, 6), unit * rng.randrange(1, 6)
+                off_b = t0 + (rng.choice([0, 0, unit]) if rng.random() < 0.7 else unit * rng.randrange(0, 4))
+                va = rng.randrange(1, 128)
+                vb = va if rng.random() < 0.5 else rng.randrange(1, 128)
+                tracks[ta].append({"tick": t0, "k": "on", "ch": uch, "pitch": up, "vel": va, "unison": 1})
+                tracks[ta].append({"tick": t0 + la, "k": "off", "ch": uch, "pitch": up, "as_on0": False, "vel": 0, "unison": 1})
+                tracks[tb_].append({"tick": off_b, "k": "on", "ch": uch, "pitch": up, "vel": vb, "unison": 1})
+                tracks[tb_].append({"tick": off_b + lb, "k": "off", "ch": uch, "pitch": up, "as_on0": False, "vel": 0, "unison": 1})
+                unison.append([gi, uch, up])
+                t0 = max(t0 + la, off_b + lb) + unit * rng.randrange(2, 5)
     # signatures: on arbitrary tracks; distinct positions >= 2 library ticks apart, never on an exact rounding tie
     horizon = max([e["tick"] for tr in tracks for e in tr] + [4 * tpb])
     sig_ticks = []
@@ -984,7 +1013,7 @@ def gen_c13_file(rng, tier):
     for tr in tracks:
         tr.sort(key=lambda e: (e["tick"], order[e["k"]]))
     return {"tpb": tpb, "tracks": tracks, "groups": None if use_default_groups else groups, "meta": meta, "target": target,
-            "writer": rng.choice(["mido", "raw"])}
+            "writer": rng.choice(["mido", "raw"]), "unison": unison}
 
 
 def gen_c13_endurance(rng, sizes=(45000, 60000)):
@@ -1060,6 +1089,8 @@ def c13_expect(f):
         for t in g:
             in_group.setdefault(t, gi)
     exp_notes = [[] for _ in groups]
+    uni_sets = [dict() for _ in groups]
+    uni_open = {}
     ts_pts, ks_pts = [], []
     for t, evs in enumerate(f["tracks"]):
         considered = t in in_group or t in meta
@@ -1067,6 +1098,15 @@ def c13_expect(f):
             continue
         open_ = {}
         for e in evs:
+            if e.get("unison"):
+                if t in in_group:
+                    if e["k"] == "on":
+                        uni_open[(t, e["ch"], e["pitch"])] = e["tick"]
+                    elif (t, e["ch"], e["pitch"]) in uni_open:
+                        a = exact(uni_open.pop((t, e["ch"], e["pitch"])), tpb)
+                        b = exact(e["tick"], tpb)
+                        uni_sets[in_group[t]].setdefault((e["ch"], e["pitch"]), set()).update(range(int(a), int(b)))
+                continue
             if e["k"] == "on" and t in in_group:
                 open_.setdefault((e["ch"], e["pitch"]), []).append(e)
             elif e["k"] == "off" and t in in_group:
@@ -1083,7 +1123,7 @@ def c13_expect(f):
     ts_pts.sort(key=lambda x: x[0])
     ks_pts.sort(key=lambda x: x[0])
     return {"notes": exp_notes, "ts": function_in_force(ts_pts, (4, 4)), "ks": function_in_force(ks_pts, None),
-            "n_groups": len(groups)}
+            "n_groups": len(groups), "unison": uni_sets}
 
 
 def c13_compare(f, seqs):
@@ -1096,6 +1136,19 @@ def c13_compare(f, seqs):
         notes, odd = piano_roll(msgs)
         if odd:
             return "ROUTING", f"group {gi}: unpaired note events after loading: {odd[:3]}"
+        uni = exp["unison"][gi]
+        if uni:
+            sounding = {}
+            for (ch, p, on, dur, vel) in notes:
+                if (ch, p) in uni:
+                    sounding.setdefault((ch, p), set()).update(range(on, on + dur))
+            for k_, want_set in uni.items():
+                if sounding.get(k_, set()) != want_set:
+                    miss = sorted(want_set - sounding.get(k_, set()))[:6]
+                    extra = sorted(sounding.get(k_, set()) - want_set)[:6]
+                    return "ROUTING", (f"group {gi}: sounding set of (channel, pitch) {k_} played in unison by two tracks of the group is "
+                                       f"not the union of the tracks: missing ticks {miss}, extra ticks {extra}")
+            notes = [n for n in notes if (n[0], n[1]) not in uni]
         got = sorted(((ch, p, vel, on, on + dur) for (ch, p, on, dur, vel) in notes), key=lambda n: (n[0], n[1], n[3]))
         want = exp["notes"][gi]
         if len(got) != len(want):
